@@ -1036,6 +1036,7 @@ class RTCPeerConnection(AsyncIOEventEmitter):
                 self.__sctp._bundled = True
 
             # stop and discard old ICE transports
+            oldTransports.discard(primaryTransport)
             for dtlsTransport in oldTransports:
                 await dtlsTransport.stop()
                 await dtlsTransport.transport.stop()
